@@ -220,6 +220,24 @@ func (e *appEnv) clientRequestForm(user, path, form string, timeout time.Duratio
 	return rid, ch
 }
 
+// clientRequestHdr is clientRequest (no body) with extra request header fields.
+func (e *appEnv) clientRequestHdr(user, method, path string, extra map[string]string, timeout time.Duration) (string, chan clientResult) {
+	rid := fmt.Sprintf("rid-%d-%d", os.Getpid(), atomic.AddInt64(&e.reqN, 1))
+	ch := make(chan clientResult, 1)
+	go func() {
+		hdr := map[string]string{"X-Appengine-Request-Log-Id": rid, "X-Verif-Probe": rid}
+		if user != "" {
+			hdr["X-AppEngine-User-Email"] = user
+		}
+		for k, v := range extra {
+			hdr[k] = v
+		}
+		st, b, rh, err := e.do(e.defPort, method, path, hdr, nil, timeout)
+		ch <- clientResult{st, b, err, rh}
+	}()
+	return rid, ch
+}
+
 // storedUnder finds the backend a request ID was stored under (the kind of its entity is req:"<backend>").
 func (e *appEnv) storedUnder(rid string, wait time.Duration) string {
 	deadline := time.Now().Add(wait)
@@ -1312,6 +1330,7 @@ type cacheOp struct {
 	M  string `json:"m"`
 	U  string `json:"u"`
 	CC bool   `json:"cc"`
+	St int    `json:"st"` // status the backend answers with (206: the request carries a Range header)
 }
 
 func appCacheDriver(a *Args) {
@@ -1340,7 +1359,7 @@ func appCacheDriver(a *Args) {
 		url := fmt.Sprintf("/cache/doc-%d?v=%d", si, si%3)
 		var shape []string
 		for _, op := range seq {
-			shape = append(shape, fmt.Sprintf("%s/%s/cc=%v", op.M, op.U, op.CC))
+			shape = append(shape, fmt.Sprintf("%s/%s/cc=%v/%d", op.M, op.U, op.CC, op.St))
 		}
 		sig := "cache:" + strings.Join(shape, ",")
 		hx.Reset(fmt.Sprintf("appcache-%d", si), sig)
@@ -1352,7 +1371,13 @@ func appCacheDriver(a *Args) {
 			if op.M == "POST" {
 				reqBody = []byte("posted")
 			}
-			rid, ch := e.clientRequest(users[op.U], op.M, url, reqBody, 10*time.Second)
+			var rid string
+			var ch chan clientResult
+			if op.St == 206 {
+				rid, ch = e.clientRequestHdr(users[op.U], op.M, url, map[string]string{"Range": fmt.Sprintf("bytes=%d-%d", k, k+4)}, 10*time.Second)
+			} else {
+				rid, ch = e.clientRequest(users[op.U], op.M, url, reqBody, 10*time.Second)
+			}
 			// the harness is the agent: a request that is stored is answered with this exchange's own body
 			reached := e.storedUnder(rid, 250*time.Millisecond) != ""
 			if reached {
@@ -1360,7 +1385,12 @@ func appCacheDriver(a *Args) {
 				if op.CC {
 					cc = "Cache-Control: private, max-age=60\r\n"
 				}
-				raw := fmt.Sprintf("HTTP/1.1 200 OK\r\nContent-Length: %d\r\nX-Own: %d\r\n%s\r\n%s", len(bodies[own]), own, cc, bodies[own])
+				statusLine := "200 OK"
+				if op.St == 206 {
+					statusLine = "206 Partial Content"
+					cc += fmt.Sprintf("Content-Range: bytes %d-%d/100\r\n", k, k+len(bodies[own])-1)
+				}
+				raw := fmt.Sprintf("HTTP/1.1 %s\r\nContent-Length: %d\r\nX-Own: %d\r\n%s\r\n%s", statusLine, len(bodies[own]), own, cc, bodies[own])
 				e.do(e.agPort, "POST", "/agent/response", agentHdr(bk.BackendUser, bk.ID, rid), []byte(raw), 10*time.Second)
 			}
 			var cr clientResult
